@@ -29,7 +29,8 @@ ASSUMPTIONS = ['quad stub: eval1, eval2 are the integrals of efun01, efun02 over
 META = {
     'level_text': ('Bounded symbolic check on the real Sedov code: pointwise (in the similarity variable) energy-integrand and '
                    'mass-integral identities that are equivalent to E(behind shock) = eblast and M(behind shock) = swept-up mass, the '
-                   'derivative dlamdv, and the closed-form singular case; gamma sliced, omega symbolic or at the exact special values. '
+                   'derivative dlamdv, the closed-form singular case, the quadrature limits and integrands really passed to quad, and the '
+                   'undisturbed state ahead of the shock (whole _run, 2-point table); gamma sliced, omega symbolic or at the exact special values. '
                    'Not a proof: floats as reals; quadrature/inversion numerics outside.'),
     'level_note': 'Trusted: z3; symx proxies/shims/stubs/differentiation; the energy and mass oracles written in harness/C11.py.',
 }
